@@ -145,6 +145,10 @@ func (a SelfDelegationProxyAccount) checkSender(ctx context.Context, sender stri
 	if !bytes.Equal(rootOwner, senderBytes) {
 		return sdkerrors.ErrUnauthorized
 	}
+	// msg.Sender is a field chosen by whoever submits MsgExecute: it must also be the actual caller
+	if !bytes.Equal(accountstd.Sender(ctx), senderBytes) {
+		return sdkerrors.ErrUnauthorized
+	}
 
 	return nil
 }
